@@ -52,6 +52,10 @@ def gen_script(rng, stage=None, maxlen=6):
         # "even if nobody ever receives again": cancel + close, then census straight away
         tail += ["x"] + closes + ["z"]
     tail += closes + ls.drain_moves(outs, 2 * n + 3) + ["z"]
+    if rng.random() < 0.08:
+        # a context that is already cancelled when the stage is created: the cancel is the script's first move
+        cfg += " pre=1"
+        body = ["x"] + [m for m in body if m != "x"]
     return cfg + " | " + " ".join(body + tail)
 
 
